@@ -26,7 +26,7 @@ var initAllow = map[string]bool{
 	"crypto/x509/pkix": true, "errors": false, "math/bits": true, "slices": true, "path": true, "path/filepath": false,
 	"bufio": true, "unicode/utf16": true, "math": true, "encoding/binary": true, "internal/byteorder": true,
 	"internal/stringslite": true, "internal/bytealg": false, "cmp": true, "iter": true, "testing/fstest": false,
-	"github.com/spf13/pflag": false, "internal/oserror": true, "syscall": false, "crypto/elliptic": true, "github.com/keybase/go-crypto/brainpool": true, "crypto": true, "github.com/spf13/cobra": false,
+	"github.com/spf13/pflag": false, "internal/oserror": true, "syscall": false, "crypto/elliptic": true, "github.com/keybase/go-crypto/brainpool": true, "crypto": true, "github.com/spf13/cobra": false, "crypto/ecdh": true,
 }
 
 func (i *interpreter) intercept(fn *ssa.Function, info *fnInfo) handler {
